@@ -800,7 +800,7 @@ func runC09(c *Ctx) {
 		}
 		c.DistinctCase(fmt.Sprint("IngressPods", seed))
 	}
-	c.Rep.Rule = "all eight generated joins and the double join IngressPods over fake API servers for source and destination (typed base controllers, virtual time, perturbation): source histories (sources appear, change selector, disappear) and destination histories (labels and namespaces change) at arbitrary relative timing; three create/use/close cycles of the join over long-lived base controllers (the third through the ...With constructor with a filter function that is slow on its first call while the source changes) (in the second cycle the context given to the constructor is cancelled right after construction: it only carries the logger). At barriers: join cache = destination objects selected by a current source object (ownership predicate written directly; also vs the extracted constructor + accept), ready only after source and destination (slow source list variant; slow destination list variant with the source changing before the destination is ready) and ready also when no source object exists at creation, Close stops everything the join created (goroutine inventory back to baseline each cycle; also when an IngressPods result is closed before it ever became ready) and leaves the bases running and current. Non-trivial = every (join, scenario)."
+	c.Rep.Rule = "all eight generated joins and the double join IngressPods over fake API servers for source and destination (typed base controllers, virtual time, perturbation): source histories (sources appear, change selector, disappear) and destination histories (labels and namespaces change) at arbitrary relative timing; three create/use/close cycles of the join over long-lived base controllers (the third through the ...With constructor with a filter function that is slow on its first call while the source changes) (in the second cycle the context given to the constructor is cancelled right after construction: it only carries the logger). At barriers: join cache = destination objects selected by a current source object (ownership predicate written directly; also vs the extracted constructor + accept), ready only after source and destination (slow source list variant; slow destination list variant with the source changing before the destination is ready) and ready also when no source object exists at creation, Close stops everything the join created (goroutine inventory back to baseline each cycle; also when an IngressPods result is closed before it ever became ready) and leaves the bases running and current. Non-trivial = every (join, scenario). Two IngressPods results over the same bases: the first closed, six source changes, the second follows; closing only the service controller does not close the result (a descendant of the pod controller) nor the other bases."
 	c.Rep.Stats["runs"] = runs
 }
 
